@@ -228,14 +228,17 @@ def parseVCert (args : List String) : Option VCert := do
                    serverName := sn, hostports := hosts, terms := terms },
          cert := { cns := cns, sans := sans }, connected := connected, realm := realm }
 
-/-- the library's answers as recorded from the real calls -/
-def libOf (tr : List String) : Cert.Lib :=
+/-- the library's answers as recorded from the real calls. `ref = false`: the answer to the call the
+    implementation made, valid only if it passed the flags the documentation implies (4 = no partial wildcards,
+    32 = never check the subject); `ref = true`: the library's answer under exactly those flags. -/
+def libOf (tr : List String) (ref : Bool := false) : Cert.Lib :=
   let toks := tr.map (·.splitOn ":")
   { rx := fun pat v => toks.any fun t => match t with
       | ["rx", p, s, r] => ofHex p == some pat && ofHex s == some v && r.startsWith "m"
       | _ => false
     hostCheck := fun h cn => (toks.findSome? fun t => match t with
-      | ["hc", hh, c, r] => if ofHex hh == some h && (c == "1") == cn then r.toInt? else none
+      | ["hc", hh, fl, r] => if !ref && ofHex hh == some h && fl.toNat? == some (if cn then 4 else 36) then r.toInt? else none
+      | ["hcref", hh, c, r] => if ref && ofHex hh == some h && (c == "1") == cn then r.toInt? else none
       | _ => none).getD 0
     ipCheck := fun h => (toks.findSome? fun t => match t with
       | ["ipc", hh, r] => if ofHex hh == some h then r.toInt? else none
@@ -254,7 +257,7 @@ def vcertSpec (args tr impl : List String) : String :=
   match parseVCert args with
   | none => "bad-op"
   | some v =>
-    if impl.head? == some "ok=1" && !Spec.Cert.acceptB (libOf tr) v.conf v.cert v.connected v.realm then
+    if impl.head? == some "ok=1" && !Spec.Cert.acceptB (libOf tr true) v.conf v.cert v.connected v.realm then
       "bad C15:accepted-a-certificate-that-does-not-match-the-block"
     else "ok"
 
